@@ -12,24 +12,32 @@ import os
 
 import common as C
 
-EXH = {  # exhaustive writer bounds per tier
-    "quick": dict(MaxTokens=4, MaxDepth=2, MaxBad=1, MaxTop=2, MaxDtd=2, MaxTrunc=2, Wide="FALSE",
-                  NStylesGood=4, NStylesBad=2, NLexStyles=6),
-    "thorough": dict(MaxTokens=5, MaxDepth=3, MaxBad=1, MaxTop=2, MaxDtd=2, MaxTrunc=2, Wide="FALSE",
-                     NStylesGood=6, NStylesBad=2, NLexStyles=6),
+EXH = {  # exhaustive writer bounds per tier (Prefix "dtd": the behaviours that start after a fixed rich DTD)
+    "quick": [
+        dict(MaxTokens=4, MaxDepth=2, MaxBad=1, MaxTop=2, MaxDtd=2, MaxTrunc=2, Wide="FALSE", Prefix='"none"',
+             NStylesGood=4, NStylesBad=2, NLexStyles=6),
+        dict(MaxTokens=13, MaxDepth=2, MaxBad=1, MaxTop=2, MaxDtd=0, MaxTrunc=0, Wide="FALSE", Prefix='"dtd"',
+             NStylesGood=2, NStylesBad=1, NLexStyles=2),
+    ],
+    "thorough": [
+        dict(MaxTokens=5, MaxDepth=3, MaxBad=1, MaxTop=2, MaxDtd=2, MaxTrunc=2, Wide="FALSE", Prefix='"none"',
+             NStylesGood=6, NStylesBad=2, NLexStyles=6),
+        dict(MaxTokens=14, MaxDepth=2, MaxBad=1, MaxTop=2, MaxDtd=0, MaxTrunc=0, Wide="FALSE", Prefix='"dtd"',
+             NStylesGood=3, NStylesBad=1, NLexStyles=3),
+    ],
 }
-SIM = {  # -simulate runs: (constants, number of behaviours, depth)
+SIM = {  # -simulate runs: (constants, number of behaviours PER WORKER (8 workers), depth)
     "quick": [
         (dict(MaxTokens=14, MaxDepth=3, MaxBad=0, MaxTop=3, MaxDtd=4, MaxTrunc=0, Wide="TRUE",
-              NStylesGood=3, NStylesBad=1, NLexStyles=3), 400, 16),
+              Prefix='"none"', NStylesGood=3, NStylesBad=1, NLexStyles=3), 50, 16),
         (dict(MaxTokens=12, MaxDepth=3, MaxBad=2, MaxTop=3, MaxDtd=3, MaxTrunc=6, Wide="TRUE",
-              NStylesGood=1, NStylesBad=2, NLexStyles=2), 300, 14),
+              Prefix='"none"', NStylesGood=1, NStylesBad=2, NLexStyles=2), 40, 14),
     ],
     "thorough": [
         (dict(MaxTokens=24, MaxDepth=4, MaxBad=0, MaxTop=4, MaxDtd=6, MaxTrunc=0, Wide="TRUE",
-              NStylesGood=6, NStylesBad=1, NLexStyles=6), 6000, 26),
+              Prefix='"none"', NStylesGood=6, NStylesBad=1, NLexStyles=6), 800, 26),
         (dict(MaxTokens=16, MaxDepth=3, MaxBad=2, MaxTop=3, MaxDtd=4, MaxTrunc=8, Wide="TRUE",
-              NStylesGood=1, NStylesBad=3, NLexStyles=3), 6000, 18),
+              Prefix='"none"', NStylesGood=1, NStylesBad=3, NLexStyles=3), 800, 18),
     ],
 }
 JUDGE_FAST_CAP = {"quick": 1500, "thorough": 12000}   # fast-path events also judged by TLC
@@ -51,12 +59,13 @@ def mc_cases(wd, tier, out=None):
     cfgname = "MC_Doc.%d.cfg" % os.getpid()
     cfg = os.path.join(C.SPEC, cfgname)
     try:
-        _mc_cfg(cfg, EXH[tier])
-        part = os.path.join(wd, "docs.exh.replay")
-        res = C.run_tlc("MC_Doc", cfgname, "docmc", to_file=part, workers=8, timeout=2400,
-                        keep_tags=["REPLAY"], xmx="12g")
-        C.tlc_must_pass(res, "MC_Doc exhaustive")
-        runs.append(("exhaustive", res, part))
+        for k, consts in enumerate(EXH[tier]):
+            _mc_cfg(cfg, consts)
+            part = os.path.join(wd, "docs.exh%d.replay" % k)
+            res = C.run_tlc("MC_Doc", cfgname, "docmc%d" % k, to_file=part, workers=8, timeout=2400,
+                            keep_tags=["REPLAY"], xmx="12g")
+            C.tlc_must_pass(res, "MC_Doc exhaustive %d" % k)
+            runs.append(("exhaustive%d" % k, res, part))
         for k, (consts, num, depth) in enumerate(SIM[tier]):
             _mc_cfg(cfg, consts)
             part = os.path.join(wd, "docs.sim%d.replay" % k)
@@ -76,7 +85,7 @@ def mc_cases(wd, tier, out=None):
                     f.write(line)
     if out is not None:
         for name, res, part in runs:
-            if name == "exhaustive":
+            if name.startswith("exhaustive"):
                 out.add_tlc(res)
             out.extra.setdefault("tlc_runs", []).append(
                 {"run": name, "states_generated": res.states, "distinct": res.distinct,
@@ -198,13 +207,18 @@ def run(prop, tier):
     out = C.Outcome(prop, tier)
     wd = C.workdir("docs" + prop)
     try:
+        import time
+        t0 = time.time()
         replay = mc_cases(wd, tier, out)
+        t1 = time.time()
         rnd = random_cases(wd, tier, out)
+        t2 = time.time()
         with open(replay, "a") as f, open(rnd) as g:
             for line in g:
                 f.write(line)
         obs = os.path.join(wd, "docs.obs")
         C.run_harness(["doc-replay", "--in", replay, "--out", obs])
+        t3 = time.time()
         events = C.read_ndjson(obs)
         rel = [e for e in events if _relevant(prop, e)]
         slow = [e for e in rel if not e["fast"]]
@@ -214,6 +228,8 @@ def run(prop, tier):
         step = max(1, len(fast) // cap) if fast else 1
         judged = slow + fast[::step][:cap]
         _judge(out, prop, judged, wd, "doctv")
+        C.log("stages: model checking %.0fs, random writer + spec rendering %.0fs, replay %.0fs, trace validation %.0fs"
+              % (t1 - t0, t2 - t1, t3 - t2, time.time() - t3))
         out.traces = len(judged)
         out.evaluations = len(rel)
         seen = set()
